@@ -24,3 +24,23 @@ claim("C15",
       "by a test) and proved everywhere else. Model tied to /repo by exact correspondence incl. every minute of boundary days.",
       "Trusted: Coq kernel + VM; harness; Python datetime as calendar glue (ordinal, weekday, ISO parsing). No axioms.",
       "Coq proof over integer model + exact differential correspondence (exhaustive minutes on sampled layouts)", "5.15")
+claim("C01",
+      "Theorems on the R instance of the Battery model, for all curves/capacities/efficiencies/durations/argument "
+      "combinations: charging never lowers the SoC nor takes it above 1, discharging never raises it, a negative SoC is left "
+      "alone, reported delta = actual change, average power >= 0, avg*T*eff = stored energy within the code's own clipping "
+      "tolerance capacity*EPS (exact below 100 %; exact when discharging), get_available_power is pure. PARTIAL: 'stops at the "
+      "target', 'power below limit/curve' and 'never raises / terminates' are not theorems at loop level (section-level "
+      "ingredients are in C02); they are evaluated by an independent Python predicate on every generated call sequence. "
+      "Model tied to /repo by exact correspondence with a validated exp/log oracle table.",
+      TB + AX_R + ", Classical_Prop.classic. exp/log: the Q model replays the implementation's recorded math.exp/math.log "
+      "answers (a miss is an error); theorems are about the true exp/ln.",
+      "Coq proof (loop invariants on R) + exact differential correspondence with exp/log oracle", "5.1")
+claim("C02",
+      "Section-level theorems (Coquelicot): the closed forms used by _adjust_soc are the solution of dSoC/dt = P(SoC)/c on a "
+      "linear section (derivative + initial value), the time-to-breakpoint is exact, steps compose (semigroup), the state stays "
+      "between current SoC and breakpoint, section average power lies between the end-point powers; a target-power request "
+      "that reaches its target below 100 % delivers exactly that power (load level). PARTIAL: multi-section composition vs. the "
+      "global ODE flow, split-vs-single call, monotonicity across sections and the 'unrestricted' clause are only sampled "
+      "(implementation-only relational cases, exact numbers, tolerance 4*EPS).",
+      TB + AX_R + ", Classical_Prop.classic (Coquelicot).",
+      "Coq/Coquelicot proof of section-level ODE facts + exact correspondence + sampled relational cases", "5.2")
